@@ -279,6 +279,20 @@ def run_case(cid, rng, workdir):
     if kw is None:
         res["status"] = "rejected"
         return res
+    if info["mode"] in ("c_res", "mc_res") and "start" not in kw and rng.random() < 0.4:
+        # a (loose) distance restraint from a build file on a chain that comes with coordinates for some residues:
+        # the restraint is worked out before the walk decides where the molecule is continued from
+        lin = [mt for mt in sysd["moltypes"] if mt.get("shape") == "lin" and len(mt["res"]) >= 3 and
+               any(n_ == mt["name"] for n_, _c in sysd["molecules"])]
+        if lin:
+            mt = rng.choice(lin)
+            nall = sum(c_ for _n, c_ in sysd["molecules"])
+            (Path(workdir) / "r.bld").write_text("[ molecule ]\n%s 0 %d\n[ distance_restraints ]\n0 %d %.3f 30.0\n" %
+                                                 (mt["name"], nall, len(mt["res"]) - 1, 0.3 * (len(mt["res"]) - 1)))
+            kw["build"] = [Path(workdir) / "r.bld"]
+            bump(res, "restraint_with_supplied_residues")
+            if mt["res"][0] == info.get("build_res"):
+                bump(res, "restraint_with_supplied_residues_first_residue_rebuilt")
     outp = Path(workdir) / "o.gro"
     ctx_kw = {}
     if cid[0] == "faults":
